@@ -435,6 +435,17 @@ func (b *block) addClause(kw, text string, line int) error {
 				return err
 			}
 			b.clauses = append(b.clauses, &clause{kind: "at-set", anchor: anchor, gname: strings.TrimSpace(rest[:i]), f: f, src: rest[i+2:], line: line})
+		case "apply":
+			// at <anchor> apply <lemma> (x term) ...   (terms may contain holes)
+			rs := strings.Fields(rest)
+			if len(rs) == 0 {
+				return fmt.Errorf("'at .. apply' needs a lemma name")
+			}
+			f, err := parseSx("(" + strings.TrimSpace(strings.TrimPrefix(rest, rs[0])) + ")")
+			if err != nil {
+				return err
+			}
+			b.clauses = append(b.clauses, &clause{kind: "at-apply", anchor: anchor, gname: rs[0], f: f, src: rest, line: line})
 		default:
 			return fmt.Errorf("unknown verb %q after anchor", verb)
 		}
